@@ -58,6 +58,9 @@ func (propC17) Draw(rt *rapid.T, w *WorldDesc, mode string) *Plan {
 			op.Opts = append(op.Opts, Opt{Kind: "header", Key: "X-Marker", Value: fmt.Sprintf("op%d", i)})
 			// headers: valid for all / one missing / one invalid
 			hmode := rapid.IntRange(0, 5).Draw(rt, fmt.Sprintf("op%d.hmode", i))
+			if hmode >= 4 && len(rpc.Headers) > 0 {
+				op.Notes = append(op.Notes, "hdr=perturbed")
+			}
 			for hi, h := range rpc.Headers {
 				v := ValidHeaderValue(h, i+hi)
 				switch {
@@ -243,6 +246,13 @@ func (propC17) Check(k *Kernel, cov *Coverage) *Violation {
 			continue
 		}
 		want := observe(ks.Calls[0])
+		// State that outlives a server instance (package-level caches) poisons the solo run in
+		// the same process too: a well-formed call must also succeed by the contract itself.
+		if noteOf(c.Op, "hdr") == "" && c.Op.App.Kind == "respond" && ruleViolation(c.Req) == nil && missingRequiredQuery(k.W.RPC(c.Op.RPC), c.Req) == nil &&
+			outcomeKind(got.Outcome) != "ok" {
+			return &Violation{Class: "isolation", Signature: "C17|isolation|well-formed-call-rejected|" + outcomeKind(got.Outcome),
+				Detail: fmt.Sprintf("op %d %s is a well-formed call (valid headers, request satisfies the declared rules) yet its outcome is %s (the same call alone in this process: %s)", c.Op.ID, c.Op.RPC, got.Outcome, want.Outcome)}
+		}
 		if d := got.diff(want); d != "" {
 			return &Violation{Class: "isolation", Signature: "C17|isolation|" + d + "|" + outcomeKind(want.Outcome) + "->" + outcomeKind(got.Outcome),
 				Detail: fmt.Sprintf("op %d %s differs (%s) from the same call executed alone:\n  with others: %s\n  alone:       %s", c.Op.ID, c.Op.RPC, d, got, want)}
